@@ -216,6 +216,46 @@ def _hides_state(code, lasti, lineno):
 
 
 # ---------------------------------------------------------------------------
+# exact statement starts through sys.monitoring LINE events, enabled lazily and
+# only for code objects that were seen on the stack at some choice point
+_TOOL = None
+_CURRENT = None
+_MONITORED = set()
+
+
+def _line_event(code, line):
+    xp = _CURRENT
+    if xp is None or xp._lstart is None:
+        return None
+    info = _fileinfo(code.co_filename)
+    if info and info['stmt'].get(line, line) != line:
+        return None          # continuation line of a multi-line statement
+    xp._lstart[sys._getframe(1)] = len(xp.trace)
+    return None
+
+
+def _monitor(code):
+    global _TOOL
+    if code in _MONITORED:
+        return
+    mon = getattr(sys, 'monitoring', None)
+    if mon is None:
+        return
+    if _TOOL is None:
+        for tid in (3, 4, 5, 2, 1, 0):
+            try:
+                mon.use_tool_id(tid, 'verif-xp')
+                _TOOL = tid
+                break
+            except ValueError:
+                continue
+        if _TOOL is None:
+            return
+        mon.register_callback(_TOOL, mon.events.LINE, _line_event)
+    mon.set_local_events(_TOOL, code, mon.events.LINE)
+    _MONITORED.add(code)
+
+
 class Explorer:
     def __init__(self, body, hashing=True, horizon=200, max_dev=None,
                  max_execs=None, on_result=None, stop_frame_code=None):
@@ -294,6 +334,8 @@ class Explorer:
             r = run.get(f)
             if r is None or r[0] != line or f not in prev:
                 run[f] = (line, i)
+            if f.f_code not in _MONITORED:
+                _monitor(f.f_code)
             if f not in first:
                 first[f] = i
             now.add(f)
@@ -309,7 +351,11 @@ class Explorer:
         for f in chain:
             code = f.f_code
             info = _fileinfo(code.co_filename)
-            hidden = tuple(self.trace[self._run[f][1]:callee_first])
+            start = self._run[f][1]
+            ls = self._lstart.get(f)
+            if ls is not None and ls > start:
+                start = ls       # exact start of the current statement
+            hidden = tuple(self.trace[start:callee_first])
             if info is False or _hides_state(code, f.f_lasti, f.f_lineno):
                 parts.append(('unique', next(self._uniq)))
                 self.stats['unique_keys'] += 1
@@ -393,9 +439,12 @@ class Explorer:
         self.trace = []
         self.arity = []
         self.events = []
+        global _CURRENT
         self._run = {}
         self._first = {}
         self._prev = set()
+        self._lstart = {}
+        _CURRENT = self
         self._stop_code = Explorer._execute.__code__
         status = 'done'
         result = None
@@ -406,7 +455,8 @@ class Explorer:
             try:
                 result = self.body()
             finally:
-                self._run = self._first = self._prev = None
+                self._run = self._first = self._prev = self._lstart = None
+                _CURRENT = None
                 self.active = False
                 self._uninstall()
         except _Cut:
